@@ -2,6 +2,7 @@
 use vstd::prelude::*;
 verus! {
 global size_of usize == 8;
+//@ include units/common/float.inc.rs
 pub type Int = isize;
 //@ include units/raw_geom/geom.inc.rs
 proof fn canary_polygon_pre(p: Polygon, pt: Point)
